@@ -175,7 +175,7 @@ func extUnsupported(what string) externalFn {
 
 func extYieldNop(fr *frame, args []value) value {
 	if !fr.atomicCtx() {
-		fr.i.ps.sched.park(&pendingOp{kind: opResume})
+		fr.i.ps.sched.park(&pendingOp{kind: opResume, wild: true})
 	}
 	return nil
 }
@@ -209,15 +209,17 @@ func extMutexLock(fr *frame, args []value) value {
 	return nil
 }
 
-func (fr *frame) yieldPoint() {
+// yieldPoint is a scheduling point before a non-blocking visible operation on
+// sync object obj.
+func (fr *frame) yieldPoint(obj interface{}) {
 	if fr.visible() {
-		fr.i.ps.sched.park(&pendingOp{kind: opResume})
+		fr.i.ps.sched.park(&pendingOp{kind: opResume, obj: obj, site: fr.i.ps.siteOf(fr)})
 	}
 }
 
 func extMutexUnlock(fr *frame, args []value) value {
 	cell := mutexCell(args[0])
-	fr.yieldPoint()
+	fr.yieldPoint(cell)
 	if lockState(cell) == 0 {
 		// fatal error in Go (not recoverable)
 		fr.i.ps.violation("panic", "fatal error: sync: unlock of unlocked mutex", fr.i.ps.siteOf(fr), nil)
@@ -231,7 +233,7 @@ func extMutexUnlock(fr *frame, args []value) value {
 
 func extMutexTryLock(fr *frame, args []value) value {
 	cell := mutexCell(args[0])
-	fr.yieldPoint()
+	fr.yieldPoint(cell)
 	if lockState(cell) != 0 {
 		return false
 	}
@@ -264,7 +266,7 @@ func extRWLock(fr *frame, args []value) value {
 
 func extRWUnlock(fr *frame, args []value) value {
 	st, p := fr.i.ps.rwOf(args[0])
-	fr.yieldPoint()
+	fr.yieldPoint(p)
 	st.writer = false
 	s := fr.i.ps.sched
 	s.releaseHB(s.cur, p)
@@ -280,7 +282,7 @@ func extRWRLock(fr *frame, args []value) value {
 
 func extRWRUnlock(fr *frame, args []value) value {
 	st, p := fr.i.ps.rwOf(args[0])
-	fr.yieldPoint()
+	fr.yieldPoint(p)
 	st.readers--
 	s := fr.i.ps.sched
 	s.releaseHB(s.cur, p)
@@ -337,7 +339,7 @@ func (ps *pathState) wgCell(p *value) *value {
 func extWGAdd(fr *frame, args []value) value {
 	ps := fr.i.ps
 	c := ps.wgCell(args[0].(*value))
-	fr.yieldPoint()
+	fr.yieldPoint(c)
 	n := asInt64(*c) + asInt64(args[1])
 	if n < 0 {
 		panic(targetPanic{iface{fr.i.runtimeErrorString, "sync: negative WaitGroup counter"}})
@@ -392,7 +394,7 @@ func (ps *pathState) syncMap(p value) *omap {
 }
 
 func (fr *frame) syncMapOp(p value) *omap {
-	fr.yieldPoint()
+	fr.yieldPoint(p.(*value))
 	ps := fr.i.ps
 	s := ps.sched
 	ptr := p.(*value)
